@@ -142,7 +142,7 @@ Inductive proc :=
    release the partition whose journal failed to open (proposed_fixes/C14-getjournals-leak.diff)?
    false = the code as it is.  Flip to true when the fix is applied; every proof in
    proofs/TIndexP.v and props/C14.v is written for both values. *)
-Definition gj_releases_failed : bool := false.
+Definition gj_releases_failed : bool := true.
 
 Inductive djst := DjLock | DjSize | DjUnlockSz | DjDelete | DjUnlock2.
 
